@@ -219,6 +219,21 @@ func c09Reports(c *Case) []Violation {
 	out := Decide(J(c.Req), nil)
 	if out.Accepted {
 		resp, _ := ParseResponse(out.Body)
+		// the alternatives shown in the result carry exactly the values the last stage handed to the method
+		last := StateOf(st.Current)
+		for _, e := range resp.Result {
+			for _, a := range last.All() {
+				if a.ID != e.Alternative.ID {
+					continue
+				}
+				for k, v := range a.Values {
+					if rv, has := e.Alternative.Criteria[k]; !has || rv != v {
+						vs = append(vs, viol(c, "C09/result-not-what-the-method-received", "result entry %s shows %s=%v, the method received %v", a.ID, k, e.Alternative.Criteria[k], v))
+						break
+					}
+				}
+			}
+		}
 		for k := range st.RepJSON {
 			var want interface{}
 			jsonUnmarshal(st.RepJSON[k], &want)
@@ -298,9 +313,33 @@ func c09Run(s *Shard) {
 		fatB := bias("fatigue", withBounding(M{"function": "const", "params": M{"value": 1.0}, "randomSeed": seed}, 3))
 		chains = append(chains, []M{concB}, []M{core[2], concB}, []M{fatB}, []M{concB, fatB})
 	}
+	chains = append(chains, []M{bias("criteriaOmission", M{"ratio": 0.67, "max": 1})}, []M{core[2], bias("criteriaOmission", M{"ratio": 1.0, "max": 1, "min": 1})}, []M{bias("criteriaOmission", M{"ratio": 0.34, "min": 2})})
+	type rootSpec struct {
+		m   string
+		sub bool
+		mp  M
+	}
+	var roots []rootSpec
 	for _, m := range allMethods {
 		for _, sub := range []bool{false, true} {
-			root := rootRequest(m, sub, false)
+			roots = append(roots, rootSpec{m, sub, nil})
+		}
+	}
+	// heuristics with a current choice taken from choseToMake (first / last listed), fixed and seeded-random order
+	for _, m := range []string{"majorityHeuristic", "satisfactionHeuristic"} {
+		for _, cc := range []string{"a", "c"} {
+			for _, rnd := range []bool{false, true} {
+				roots = append(roots, rootSpec{m, false, M{"currentChoice": cc, "randomAlternativesOrdering": rnd, "randomSeed": 3}})
+			}
+		}
+	}
+	for _, rs := range roots {
+		m := rs.m
+		{
+			root := rootRequest(m, rs.sub, false)
+			if rs.mp != nil {
+				root = withMP(root, rs.mp)
+			}
 			for _, ch := range chains {
 				if !s.Take() {
 					continue
